@@ -16,10 +16,14 @@ Classes == {[name |-> "both",     send |-> TRUE,  sync |-> TRUE],
             [name |-> "synconly", send |-> FALSE, sync |-> TRUE],
             [name |-> "neither",  send |-> FALSE, sync |-> FALSE]}
 Subjects == {"world", "archetype", "entity", "direct"}
+\* Lenders: objects that lend references to the components. For them only the FORBIDDEN direction is
+\* stated (what would let safe code move or share a component against its own Send / Sync); whether the
+\* permitted direction is implemented is the library's choice.
+Lenders == {"iter", "itermut", "view", "borrowobj"}
 Traits == {"Send", "Sync", "Copy"}
 
 VARIABLE q
-Init == q \in [c : Classes, s : Subjects, t : Traits]
+Init == q \in [c : Classes, s : Subjects \cup Lenders, t : Traits]
 Next == UNCHANGED q
 Spec == Init /\ [][Next]_q
 
@@ -28,5 +32,16 @@ Holds(x) ==
     ELSE CASE x.t = "Send" -> x.c.send                       \* owner of the components
            [] x.t = "Sync" -> FALSE                          \* RefCell columns
            [] x.t = "Copy" -> FALSE
-Export == PrintT(<<"AUTOTRAIT", ToJson([class |-> q.c.name, subject |-> q.s, trait |-> q.t, holds |-> Holds(q)])>>)
+\* must the assertion be rejected?  iter lends &C, itermut and view lend &mut C, a Borrow object
+\* shares the world's RefCells (so it may cross threads under no circumstances)
+Forbidden(x) ==
+    CASE x.t = "Copy" -> FALSE
+      [] x.s = "iter"      -> ~x.c.sync
+      [] x.s \in {"itermut", "view"} -> IF x.t = "Send" THEN ~x.c.send ELSE ~x.c.sync
+      [] x.s = "borrowobj" -> TRUE
+      [] OTHER -> FALSE
+Must(x) == IF x.s \in Lenders THEN (IF Forbidden(x) THEN "reject" ELSE "any")
+           ELSE (IF Holds(x) THEN "compile" ELSE "reject")
+Export == PrintT(<<"AUTOTRAIT", ToJson([class |-> q.c.name, subject |-> q.s, trait |-> q.t,
+                    holds |-> IF q.s \in Lenders THEN FALSE ELSE Holds(q), must |-> Must(q)])>>)
 =============================================================================
